@@ -192,10 +192,49 @@ def gen_graph(rng, size, feat):
             m = p.add(op, _text(op, len(p.nodes)), lp)
             p.edges.append((n, sp, m, None))
             stubs.pop(i)
+    planted_access = None
+    if rng.below(100) < feat.get("acc", 0):
+        # planted access-order dependency between two SHARED readers of one fresh singleton, against the
+        # direction of a same-tick pipe path: `up` (higher group) feeds `down` (lower group), so the
+        # access-order edge down -> up closes a cycle (or, without a path, merely orders the two subgraphs)
+        args_top = [i for i, nd in enumerate(p.nodes)
+                    if nd["op"] in ARG_OPS and nd["op"] != "source_iter" and nd["loop"] is None]
+        succ = {}
+        for (a, _sp, b, _dp) in p.edges:
+            if p.nodes[b]["op"] not in ("defer_tick", "defer_tick_lazy"):
+                succ.setdefault(a, []).append(b)
+        pairs_ = []
+        for u in args_top:
+            seen, todo = set(), [u]
+            while todo:
+                x = todo.pop()
+                for y in succ.get(x, []):
+                    if y not in seen:
+                        seen.add(y)
+                        todo.append(y)
+            pairs_ += [(u, d) for d in args_top if d in seen and d != u]
+        if pairs_ or len(args_top) >= 2:
+            if pairs_ and rng.below(100) < 75:
+                up, down = rng.choice(pairs_)
+            else:
+                up, down = rng.sample(args_top, 2)
+            planted_access = (up, down)
     for (n, sp, lp) in stubs:
         op = rng.choice(["for_each", "null"])
         m = p.add(op, _text(op, len(p.nodes)), lp)
         p.edges.append((n, sp, m, None))
+    if planted_access:
+        up, down = planted_access
+        src = p.add("source_iter", "source_iter(0..%d)" % (len(p.nodes) + 2), None)
+        h = p.add("singleton", "singleton()", None)
+        p.edges.append((src, None, h, None))
+        lo = rng.range(0, 1)
+        p.nodes[up].setdefault("refs", []).append("#{%d} n%d" % (lo + 1, h))
+        p.nodes[down].setdefault("refs", []).append("#{%d} n%d" % (lo, h))
+        if rng.below(100) < 30 and len(p.nodes) > 3:
+            third = rng.choice([i for i, nd in enumerate(p.nodes) if nd["op"] in ARG_OPS and nd["op"] != "source_iter"] or [up])
+            if third not in (up, down):
+                p.nodes[third].setdefault("refs", []).append("#{%d} n%d" % (lo + 2, h))
     # references: arg-bearing operators mention handoffs
     argnodes = [i for i, nd in enumerate(p.nodes) if nd["op"] in ARG_OPS and nd["op"] != "source_iter"]
     groups_used = {}
@@ -307,9 +346,10 @@ def render(rng, p, inline=60):
 FEATS = [
     {"name": "basic", "defer": 8, "back": 0, "refs": 0, "loops": 0},
     {"name": "cycles", "defer": 8, "back": 80, "back_defer": 45, "refs": 0, "loops": 0, "close": 45},
-    {"name": "refs", "defer": 8, "back": 30, "back_defer": 60, "refs": 90, "loops": 0, "bad_ref": 3},
+    {"name": "refs", "defer": 8, "back": 30, "back_defer": 60, "refs": 90, "loops": 0, "bad_ref": 3, "acc": 25},
+    {"name": "access", "defer": 6, "back": 15, "back_defer": 60, "refs": 20, "loops": 0, "acc": 100},
     {"name": "loops", "defer": 10, "back": 40, "back_defer": 75, "refs": 0, "loops": 90},
-    {"name": "all", "defer": 10, "back": 50, "back_defer": 55, "refs": 60, "loops": 60, "bad_ref": 2},
+    {"name": "all", "defer": 10, "back": 50, "back_defer": 55, "refs": 60, "loops": 60, "bad_ref": 2, "acc": 15},
 ]
 
 HAND = [
@@ -330,6 +370,9 @@ HAND = [
     "s = source_iter(0..5) -> map(|x| { let _ = #h; x }) -> h; h = singleton();",
     "h = source_iter(0..1) -> optional(); source_iter(0..5) -> map(|x| { let _ = #{1} mut h; x }) -> null(); source_iter(0..2) -> for_each(|x| { let _ = #{0} h; });",
     "source_iter(0..5) -> handoff() -> handoff() -> null();",
+    # access order between two shared readers against a same-tick pipe path (cycle) / without one (order only)
+    "h = source_iter(0..1) -> singleton(); source_iter(0..5) -> map(|x| { let _ = #{1} h; x }) -> map(|x| { let _ = #{0} h; x }) -> null();",
+    "h = source_iter(0..1) -> singleton(); source_iter(0..5) -> for_each(|x| { let _ = #{1} h; }); source_iter(0..6) -> for_each(|x| { let _ = #{0} h; });",
     "source_iter(0..5) -> union() -> tee() -> null();",
     "i1 = source_iter([1]); i2 = source_iter([2]); loop { i1 -> batch() -> for_each(drop); i2 -> batch() -> map(|x| x + #s) -> for_each(drop); }; s = source_iter([5]) -> fold(|| 0, |a, x| *a += x) -> singleton();",
 ]
